@@ -544,6 +544,11 @@ pub struct SnapshotParts {
     pub port_ds: Vec<statime::observability::port::PortDS>,
 }
 
+thread_local! {
+    /// scenario families written for another property can be re-run with the timer-cover monitor on
+    pub static TIMER_COVER_DEFAULT: Cell<bool> = const { Cell::new(false) };
+}
+
 pub struct World {
     pub keep_snapshots: bool,
     pub snapshots: Vec<SnapshotParts>,
@@ -601,7 +606,7 @@ impl World {
             next_ctx: 1,
             events: 0,
             monitors: true,
-            timer_cover: false,
+            timer_cover: TIMER_COVER_DEFAULT.with(|c| c.get()),
             max_freq_ppm: 400.0,
             step_threshold_units: (MS) as i128,
             last_call: None,
